@@ -307,6 +307,23 @@ def gen_rule_cases(rng, n):
     return cases
 
 
+def gen_failing_rule_message_cases():
+    """rules that FAIL over many artifacts with non-ASCII names: the failure is reported (however long the report gets and
+    wherever a multi-byte character falls in it), not crashed on.  The ASCII padding shifts every character boundary
+    through all residues."""
+    cases = []
+    for pad in range(0, 8):
+        for ch in ("é", "€", "😀"):
+            names = ["p" * pad + ch * (3 + j % 5) + f"-{j}" for j in range(60)]
+            prods = {nm: scen.digest(j % 4) for j, nm in enumerate(names)}
+            for rules in ([["DISALLOW", "*"]], [["REQUIRE", "not-there-" + ch * 200]], [["DISALLOW", "a**b" + ch * 300]],
+                          [["ALLOW", "nothing"], ["DISALLOW", "p*"]], [["MATCH", "*", "WITH", "PRODUCTS", "FROM", "ghost-" + ch * 180], ["DISALLOW", "*"]]):
+                item = scen.mk_step(ch * 90 + "-item", 1, [], [], [], rules)
+                links = {ch * 90 + "-item": scen.mk_link(ch * 90 + "-item", {}, prods)}
+                cases.append({"op": "rules", "kind": "step", "item": item, "links": links, "meta": {"cls": "failing_rule_with_long_non_ascii_report"}})
+    return cases
+
+
 def gen_dir_cases(rng, W, seeds, n):
     """final-product verification over link directories populated with hostile files, which are read
     and matched before any signature has been checked"""
@@ -612,6 +629,8 @@ def shard(binpath, seed, sh, n, env=None, runner=None, tag="native"):
     cases += gen_extreme_layout_cases(rng, W, common.HARNESS / "target" / "release" / "itv", sh, common.NPROC)
     if sh in (2, 3):
         cases += gen_time_cases(rng, seeds)
+    if sh == 5:
+        cases += gen_failing_rule_message_cases()
     absdir = None
     if sh == 4:
         import tempfile
@@ -837,7 +856,7 @@ def main(ctx):
                                     "statement_json", "predicate_json", "envelope")] + \
           ["ep:metablock:ok", "ep:pubkey_json:ok", "ep:spki:ok", "ep:pk8:ok", "ep:rules:ok", "ep:verify:err", "input:adversarial_json",
            "input:byte_mutation", "input:random_bytes", "input:hostile_link_dir", "input:rules_adversarial", "input:hostile_signed_layout",
-           "input:large", "input:inspection_over_special_files", "input:extreme_signed_layout", "input:self_similar_sublayout_directory_loop", "input:self_similar_sublayout_under_absolute_step_name", "input:extreme_time_stamp", "library_log_statements_formatted"]
+           "input:large", "input:inspection_over_special_files", "input:extreme_signed_layout", "input:self_similar_sublayout_directory_loop", "input:self_similar_sublayout_under_absolute_step_name", "input:extreme_time_stamp", "input:failing_rule_with_long_non_ascii_report", "library_log_statements_formatted"]
     return common.finish(
         PROP, ctx.tier, ctx.seed, res, t0=ctx.t0,
         rule="28 entry points (JSON decoders of every public type through slice/str, metadata wrappers, raw builder, key importers "
